@@ -21,6 +21,10 @@ CHECKS = {
  'C04': ('exploration', 'Hypothesis-generated cases over the full unsigned field range x all 256 hash types, differential vs reference BIP143 digest',
          'Digest equality with a reference written from the BIP143 text (validated on the BIP worked examples) for lock times / sequences up to '
          '2^32-1, amounts to 2^63-1, script codes across the 253-byte and 65,536-byte CompactSize boundaries.', TRUST),
+ 'C06': ('exploration', 'differential testing vs an independent reference Script interpreter: exhaustive enumeration of short programs + Hypothesis grammar/signature/mutation generators + parameterised limit probes',
+         'Library EvalScript/VerifyScript compared with a from-scratch interpreter (validated on 622 Core vectors) on every script of <=2 (3) tokens, '
+         'grammar programs, reference-signed signature programs (all templates, CODESEPARATOR, FindAndDelete, P2SH), limit probes at L-3..L+3 and '
+         'all 256 opcodes in six positions; accept/reject and exact final stacks.', TRUST),
  'C15': ('exploration', 'enumeration of every transaction count + Hypothesis witness/duplicate variants vs recursive reference merkle and weight formula',
          'Every n in 1..70 (1..300 thorough, powers of two +-1 to 1025) with generated witness subsets and duplicates is compared with a recursive '
          'textbook merkle definition over reference txids/wtxids; wrong declared roots must be refused; weights equal 3*stripped+full.', TRUST),
